@@ -130,6 +130,196 @@ Section Lookup.
     else existsb (str_eqb w) (map (join_with c_dot) (mw_prefixes [] (split_on c_dot s))).
 End Lookup.
 
+(** ================================================================================
+    Extension: custom selection policies (Config.CertSelection), SubjectQualifiesForCert,
+    getNameFromClientHello's choice of the name, loadCertFromStorage and the effect of the
+    almost-full branch on the cache.  [lookup_x] subsumes [lookup] (see [Proofs.lookup_x_default]).
+    ================================================================================ *)
+From CM Require Import Lib.QualSteps.
+
+(** SubjectQualifiesForCert: the conjuncts read from the source (Gen.Consts.qualify_conds,
+    translator item of C02), interpreted in order *)
+Section Qual.
+  Variable is_space : N -> bool.
+  Fixpoint contains (a s : str) : bool :=
+    has_prefix a s || match s with [] => false | _ :: r => contains a r end.
+  Definition has_suffix (p s : str) : bool := has_prefix (rev p) (rev s).
+  Definition q_eval (s : str) (q : qcond) : bool :=
+    match q with
+    | QNonBlank => negb (forallb is_space s)
+    | QNotPrefix p => negb (has_prefix p s)
+    | QNotSuffix p => negb (has_suffix p s)
+    | QOnlyIf a b c => negb (contains a s) || has_prefix b s || str_eqb s c
+    | QNoneOf cs => negb (existsb (fun c => existsb (N.eqb c) cs) s)
+    end.
+  Definition subject_qualifies (s : str) : bool := forallb (q_eval s) qualify_conds.
+End Qual.
+
+(** the selection policies the harness can configure: none (DefaultCertificateSelector), or a
+    CertSelection double choosing by hash order, optionally among the supported unexpired
+    choices only, or refusing every choice *)
+Inductive policy := PDefault | PMin | PMax | PGoodMin | PRefuse.
+
+Fixpoint str_ltb (a b : str) : bool :=
+  match a, b with
+  | _, [] => false
+  | [], _ :: _ => true
+  | x :: a', y :: b' => (x <? y) || ((x =? y) && str_ltb a' b')
+  end.
+Definition pick_by (better : hash -> hash -> bool) (l : list cert) : option cert :=
+  fold_left (fun acc c => match acc with
+                          | None => Some c
+                          | Some b => if better (c_hash c) (c_hash b) then Some c else Some b
+                          end) l None.
+
+(** selectCert hands the custom selector the certificates listed under the name, or -- when
+    there are none -- ALL cached certificates (getAllCerts) *)
+Definition choices_for (s : state) (n : name) : list cert :=
+  let ch := get_all_matching_certs s n in if is_nil ch then map snd (cache s) else ch.
+
+Section Policy.
+  Variable sup valid : hash -> bool.
+  Definition custom_pick (p : policy) (l : list cert) : option cert :=
+    match p with
+    | PDefault => None
+    | PMin => pick_by str_ltb l
+    | PMax => pick_by (fun a b => str_ltb b a) l
+    | PGoodMin => pick_by str_ltb (filter (fun c => sup (c_hash c) && valid (c_hash c)) l)
+    | PRefuse => None
+    end.
+  (** selectCert *)
+  Definition sel_policy (p : policy) (s : state) (n : name) : option cert :=
+    match p with
+    | PDefault => select_cert sup valid s n
+    | _ => custom_pick p (choices_for s n)
+    end.
+End Policy.
+
+(** a certificate resource in storage: the certificate as CacheManagedCertificate would cache it;
+    [sd_fresh]: not due for renewal (handshakeMaintenance returns it as it is); [sd_servable]: not
+    expired (fresh implies servable).  A stored certificate that is due cannot be renewed with
+    on-demand TLS off and is removed from the cache again: at once if it has expired (then it is
+    not served), by the background renewal goroutine if it is still valid (it is served) *)
+Record stored := Stored { sd_cert : cert; sd_fresh : bool; sd_servable : bool }.
+
+(** what the environment contributes: idna.Lookup.ToASCII(TrimSpace(ServerName)) (None: error),
+    the certificate resources in storage by the name they are stored under, and the eviction
+    victim the implementation drew if the load had to make room *)
+Record envx := EnvX {
+  x_idna : option str;
+  x_storage : amap stored;
+  x_broken : list name;          (* names whose resources cannot be read (a storage error other than "not found") *)
+  x_victim : option hash
+}.
+
+(** loadCertFromStorage: the exact name, else -- only if the exact name does not exist
+    (fs.ErrNotExist), not on any other storage error -- the name with its first label replaced by "*" *)
+Definition star_first (n : name) : name :=
+  join_with c_dot (match split_on c_dot n with [] => [] | _ :: r => [c_star] :: r end).
+Definition load_from_storage (st : amap stored) (broken : list name) (n : name) : option stored :=
+  match alookup n st with
+  | Some x => Some x
+  | None => if mem_str n broken then None
+            else if mem_str (star_first n) broken then None else alookup (star_first n) st
+  end.
+
+Definition defaulted_result (o : option (cert * bool * name)) : result :=
+  match o with Some (c, _, _) => ROk c | None => RErr end.
+
+Section LookupX.
+  Variable lower : N -> N.
+  Variable is_space : N -> bool.
+  (** selectCert, whatever the policy *)
+  Variable sel : state -> name -> option cert.
+
+  Fixpoint first_sel (s : state) (cands : list name) : option (name * cert) :=
+    match cands with
+    | [] => None
+    | m :: r => match sel s m with Some c => Some (m, c) | None => first_sel s r end
+    end.
+
+  Definition try_fallback_x (s : state) (cfg : config) : option (cert * bool * name) :=
+    if is_nil (fallback_name cfg) then None
+    else let f := normalize lower is_space (fallback_name cfg) in
+         match sel s f with Some c => Some (c, false, f) | None => None end.
+
+  (** [conn]: hello.Conn != nil (a ClientHelloInfo made by crypto/tls always has one; without it the
+      local IP is not tried and getNameFromClientHello's last resort is the empty string) *)
+  Definition from_cache_x (conn : bool) (s : state) (cfg : config) (sni localip : str) : option (cert * bool * name) :=
+    let n := normalize lower is_space sni in
+    if is_nil n then
+      match (if conn then sel s localip else None) with
+      | Some c => Some (c, true, localip)
+      | None =>
+          match (if is_nil (default_name cfg) then None
+                 else let d := normalize lower is_space (default_name cfg) in
+                      match sel s d with Some c => Some (c, false, d) | None => None end) with
+          | Some r => Some r
+          | None => try_fallback_x s cfg
+          end
+      end
+    else
+      match first_sel s (n :: wildcard_candidates n) with
+      | Some (m, c) => Some (c, true, m)
+      | None => try_fallback_x s cfg
+      end.
+
+  (** getNameFromClientHello *)
+  Definition hello_name (cfg : config) (localip : str) (idna : option str) : option str :=
+    match idna with
+    | None => None
+    | Some n => Some (if is_nil n
+                      then (if is_nil (default_name cfg) then localip
+                            else normalize lower is_space (default_name cfg))
+                      else n)
+    end.
+
+  (** Config.GetCertificate -> getCertDuringHandshake (OnDemand == nil, no Managers): the answer
+      and the cache afterwards *)
+  Definition lookup_x (conn : bool) (s : state) (cap : nat) (cfg : config) (sni localip : str) (e : envx) : result * state :=
+    match from_cache_x conn s cfg sni localip with
+    | Some (c, true, _) => (ROk c, s)
+    | other =>
+        match hello_name cfg localip (x_idna e) with
+        | None => (RErr, s)                                        (* getNameFromClientHello *)
+        | Some nm =>
+            if negb (subject_qualifies is_space nm) then (RErr, s) (* checkIfCertShouldBeObtained *)
+            else match (if almost_full cap (length (cache s))
+                        then load_from_storage (x_storage e) (x_broken e) nm else None) with
+                 | Some x =>                                       (* CacheManagedCertificate *)
+                     let s1 := add_cert cap (sd_cert x) (x_victim e) s in
+                     let s2 := if sd_fresh x then s1 else remove_cert (sd_cert x) s1 in
+                     if sd_servable x then (ROk (sd_cert x), s2)
+                     else (defaulted_result other, s2)
+                 | None => (defaulted_result other, s)
+                 end
+        end
+    end.
+
+  (** Config.GetCertificateWithContext: an event handler may abort the handshake
+      ("tls_get_certificate"); a ClientHello with a server name whose only ALPN protocol is
+      "acme-tls/1" (the literal comes from the source: Gen.Consts.acme_tls1_protocol) asks for the
+      TLS-ALPN challenge certificate -- here: no challenge is in progress, which is an error, never
+      a certificate of the cache; everything else is [lookup_x] *)
+  Definition acme_tls_alpn (sni : str) (protos : list str) : bool :=
+    negb (is_nil sni) && strs_eqb protos [acme_tls1_protocol].
+  Definition get_certificate (abort : bool) (protos : list str)
+             (conn : bool) (s : state) (cap : nat) (cfg : config) (sni localip : str) (e : envx) : result * state :=
+    if abort then (RErr, s)
+    else if acme_tls_alpn sni protos then (RErr, s)
+    else lookup_x conn s cap cfg sni localip e.
+
+  (** the environment of [lookup] that corresponds to an extended one *)
+  Definition env_of (cfg : config) (localip : str) (e : envx) : env :=
+    match hello_name cfg localip (x_idna e) with
+    | None => Env true false None
+    | Some nm => Env false (subject_qualifies is_space nm)
+                   (match load_from_storage (x_storage e) (x_broken e) nm with
+                    | Some x => if sd_servable x then Some (sd_cert x) else None
+                    | None => None end)
+    end.
+End LookupX.
+
 (** reference semantics of "covers": the name itself, or the name with its k >= 1 leftmost
     labels each replaced by "*" *)
 Definition labels (n : name) : list str := split_on c_dot n.
